@@ -340,6 +340,11 @@ def c01_catalogue(tier: str) -> List[dict]:
         # the parent cycles more often than the child
         ('p1-p2', [('P1', [N('a')]), ('P2', [E(A('a'), 'b')])], 3),
         ('p1-offp2', [('P1', [N('a')]), ('+P1/P2', [E(A('a'), 'b')])], 3),
+        # a task that is parentless on one recurrence and parented (by an
+        # optional output) on an interleaved one
+        ('interleaved', [('P2', [N('a')]),
+                         ('+P1/P2', [E(A('b', 0, 'succeeded', True), 'a')])],
+         3),
     ]
     for name, secs, fcp in two:
         if tier == 'quick' and name == 'r1-abs':
